@@ -51,7 +51,7 @@ func profiles() map[string]*Profile {
 		{Name: "core-long", Blocks: 160, MaxOps: 5, PSlash: 0.04, PDowntime: 0.02, PNative: 0.12, PGov: 0.03, PDonate: 0.02, PClaim: 0.12, Warmup: true},
 		{Name: "noslash", Blocks: 60, MaxOps: 5, PNative: 0.08, PGov: 0.02, PClaim: 0.2, Warmup: true},
 		{Name: "extreme", Blocks: 50, MaxOps: 5, Extreme: true, PSlash: 0.08, PDowntime: 0.03, PNative: 0.1, PGov: 0.03, PDonate: 0.03, PClaim: 0.1, BigGaps: true, HighTake: true},
-		{Name: "gov", Blocks: 50, MaxOps: 5, PSlash: 0.03, PNative: 0.05, PGov: 0.45, PGovBad: 0.5, PClaim: 0.08, Decay: true, Warmup: true, BigGaps: true},
+		{Name: "gov", Blocks: 50, MaxOps: 5, PSlash: 0.03, PNative: 0.05, PGov: 0.45, PGovBad: 0.5, PClaim: 0.08, Decay: true, Warmup: true},
 		{Name: "time", Blocks: 80, MaxOps: 3, PNative: 0.05, PGov: 0.06, PClaim: 0.1, Decay: true, Warmup: true, BigGaps: true, HighTake: true},
 		{Name: "queue", Blocks: 60, MaxOps: 7, PSlash: 0.10, PDowntime: 0.03, PNative: 0.05, PGov: 0.01, PClaim: 0.05, Pack: true, NoTake: false},
 		{Name: "native", Blocks: 70, MaxOps: 5, PSlash: 0.06, PDowntime: 0.05, PNative: 0.45, PGov: 0.04, PClaim: 0.05, Warmup: true, Decay: true},
